@@ -98,7 +98,10 @@ func (k msgServer) depositForBurn(
 	}
 
 	// burn coins
-	coin := sdk.NewCoin(burnToken, math.NewIntFromBigInt(amount.BigInt()))
+	coin := sdk.Coin{Denom: burnToken, Amount: math.NewIntFromBigInt(amount.BigInt())}
+	if err := coin.Validate(); err != nil {
+		return 0, errors.Wrapf(types.ErrBurn, "burning denom: %s is not supported", burnToken)
+	}
 
 	err = k.bank.SendCoinsFromAccountToModule(ctx, fromAccAddress, types.ModuleName, sdk.NewCoins(coin))
 	if err != nil {
